@@ -196,6 +196,11 @@ def check(run):
     judge(run, pool, [f.result() for f in rep_f], "replay")
     judge(run, pool, [f.result() for f in rand_f], "random")
     judge(run, pool, [f.result() for f in conc_f], "free-running")
+    # two threads creating the SAME new operation, the first one parked (by the harness's own global allocator) inside each
+    # of its allocations within Session::operation() while the second one runs: both spans must reach the report
+    t_op = os.path.join(wd, "trace_oprace.ndjson")
+    judge(run, pool, [harness(run, ["oprace", t_op, 12], t_op)], "operation-creation-race")
+    run.cov["operation_creation_race_points"] = sum(1 for r in read_ndjson(t_op) if r.get("ev") == "reset" and r["tag"].get("a_parked"))
     pool.shutdown()
     if run.cov.get("harness_crashes") and not run.violations and not run.known_hits:
         raise vlib.ToolError("the harness process crashed (%s) and the judge found nothing wrong in what was recorded before"
